@@ -162,6 +162,18 @@ func runSubject(h *History, cfg config.Blockchain, l Local, steps []Step, backen
 		}
 		return added
 	}
+	// stray notes batches that were not issued by a flush step of the schedule; a change set among them
+	// means the node's own timer flushed in between (the tie lines of this run are then not comparable).
+	stray := func(phase string) {
+		from := len(sr.batchInfo)
+		if note(phase) > 0 {
+			for _, b := range sr.st.Batches()[from:] {
+				if !b.GC {
+					sr.timerHit = true
+				}
+			}
+		}
+	}
 	srh := cfg.StateRootInHeader
 	gcSeen := 0
 	gcPending := false
@@ -184,7 +196,7 @@ func runSubject(h *History, cfg config.Blockchain, l Local, steps []Step, backen
 	}
 	flushLine := func() {
 		gcLine()
-		note("gc")
+		stray("gc")
 		before := len(sr.batchInfo)
 		if l.RUB {
 			// wait for the timer-driven persist (and the GC that follows it in the same goroutine)
@@ -234,6 +246,7 @@ func runSubject(h *History, cfg config.Blockchain, l Local, steps []Step, backen
 				return nil, fmt.Errorf("subject AddHeaders %d..%d: %w", from, s.H, err)
 			}
 			sr.lines = append(sr.lines, [2]string{fmt.Sprintf("hdr %d %d", from, s.H), "ok"})
+			stray("run")
 		case "blk":
 			if err := safeAddBlock(bc, h.Blocks[s.H-1]); err != nil {
 				return nil, fmt.Errorf("subject AddBlock %d: %w", s.H, err)
@@ -241,9 +254,7 @@ func runSubject(h *History, cfg config.Blockchain, l Local, steps []Step, backen
 			accepted = s.H
 			inf := h.Info[s.H-1]
 			sr.lines = append(sr.lines, [2]string{fmt.Sprintf("blk %d %d %s", s.H, inf.NTx, pairsStr(inf.Pairs)), "ok"})
-			if note("run") > 0 {
-				sr.timerHit = true
-			}
+			stray("run")
 		case "flush":
 			flushLine()
 		}
@@ -253,7 +264,7 @@ func runSubject(h *History, cfg config.Blockchain, l Local, steps []Step, backen
 		time.Sleep(60 * time.Millisecond)
 	}
 	gcLine()
-	note("gc")
+	stray("gc")
 	closed = true
 	before := sr.st.NumBatches()
 	bc.Close()
